@@ -342,6 +342,21 @@ def _real_worker(case):
 # --------------------------------------------------------------------------- independent pointwise oracle
 
 
+def _guard(v):
+    if not fexpr.is_dyadic_small(v):
+        raise Inexact(str(v))
+    return v
+
+
+def _guard_sum(terms):
+    """every partial sum of `terms`, in any order, is exactly representable as a double"""
+    k = max((t.denominator for t in terms), default=1)
+    n = sum(abs(t.numerator) * (k // t.denominator) for t in terms)
+    if n.bit_length() > 52 or k.bit_length() > 60:
+        raise Inexact("sum")
+    return sum(terms, Fraction(0))
+
+
 class KeyErr(Exception):
     pass
 
@@ -449,11 +464,25 @@ class Oracle:
     def raw(self):
         return [[[Fraction(t), {k: Fraction(v) for k, v in st}] for t, st in s["rows"]] for s in self.segs]
 
+    def rhs_at(self, i, state, t):
+        """N(state, t) x v(state, t) per variable, every product and every partial sum checked to be exact"""
+        sp = self.spec(i)
+        env = sp.at(dict(state), Fraction(t))
+        terms = {k: [] for k in sp.vars}
+        for r, rx in sp.rxns.items():
+            for cpd, cj in rx["st"]:
+                terms[cpd].append(_guard(_guard(sp.coef(cj, env)) * env[r]))
+        for su in sp.surs.values():
+            for f, st in su["st"]:
+                for cpd, cj in st:
+                    terms[cpd].append(_guard(_guard(sp.coef(cj, env)) * env[f]))
+        return {k: _guard_sum(ts) for k, ts in terms.items()}
+
     def rhs_tabs(self):
         self.check_shape()
         tabs = []
         for i, s in enumerate(self.segs):
-            tabs.append([[Fraction(t), self.spec(i).rhs(dict(st), Fraction(t))] for t, st in s["rows"]])
+            tabs.append([[Fraction(t), self.rhs_at(i, st, t)] for t, st in s["rows"]])
         return tabs
 
     def normalise(self, tabs, norm):
@@ -475,7 +504,7 @@ class Oracle:
         for tab in tabs:
             new = []
             for t, row in tab:
-                new.append([t, {k: v / facs[r] for k, v in row.items()}])
+                new.append([t, {k: _guard(v / facs[r]) for k, v in row.items()}])
                 r += 1
             out.append(new)
         return out
@@ -528,7 +557,7 @@ class Oracle:
                 if scaled:
                     env = self.spec(i).at(dict(st), t)
                     cf = self.coefs_at(i, v, env)  # the coefficient at THIS row
-                    sel = {k: x * (cf[k] if prod else -cf[k]) for k, x in sel.items()}
+                    sel = {k: _guard(x * (cf[k] if prod else -cf[k])) for k, x in sel.items()}
                 new.append([t, sel])
             out.append(new)
         return self.finish(out, None, concat)
@@ -648,8 +677,10 @@ def evaluate(cases, use_driver=True):
 
 
 def shape_of(case):
-    return (C.shape_of(case["content"]) + f"ro{len(case['content'].get('readouts', []))}"
-            + f"-seg{len(case['segs'])}-{case.get('mode', 'direct')}" + ("-malformed" if malformed(case) else ""))
+    c = case["content"]
+    ndyn = sum(1 for _, r in c["rxns"] for _, cf in r["st"] if "c" not in cf)
+    return (f"seg{len(case['segs'])}-{case.get('mode', 'direct')}" + ("-malformed" if malformed(case) else "")
+            + f"-ro{len(c.get('readouts', []))}-sur{min(len(c['surs']), 1)}-dc{min(ndyn, 1)}")
 
 
 def _sub(case, i):
@@ -742,7 +773,8 @@ def setup(ctx):
     )
     ctx.assumptions += [
         "pandas DataFrame construction, .loc selection, concat and broadcasting are exercised by the tie, not modelled",
-        "segments with repeated time points and per-segment normalisers that are themselves arrays are modelled but not generated",
+        "segments with repeated time points / without rows are outside the specification; the model covers them and is compared with the real code on them (edge stratum, R vs M only)",
+        "per-segment normalisers that are themselves arrays, and zero normalisers (inf/nan), are not generated",
         "the sign rule of get_producers/get_consumers is taken as specified: sign of the coefficient at the model's initial state under segment-0 parameters",
     ]
 
@@ -788,6 +820,48 @@ def exhaustive_cases():
     return cases
 
 
+def gen_edge_case(ctx):
+    """inputs outside the specification's domain but inside the model's: a repeated time point within a
+    segment (rows collapse in the dict keyed by time), a segment without rows (`.loc` on an empty frame)"""
+    rng = ctx.rng
+    while True:
+        c = gen_case(ctx, 0)
+        if malformed(c):
+            continue
+        c["mode"] = "direct"
+        if rng.random() < 0.6:
+            cand = [s for s in c["segs"] if len(s["rows"]) >= 2]
+            if not cand:
+                continue
+            s = rng.choice(cand)
+            j = rng.randrange(len(s["rows"]) - 1)
+            s["rows"][j + 1][0] = s["rows"][j][0]
+            c["edge"] = "dup-time"
+        else:
+            rng.choice(c["segs"])["rows"] = []
+            c["edge"] = "empty-segment"
+        return c
+
+
+def run_edge(ctx, n):
+    """model fidelity only (R vs M; no oracle claims anything about these inputs)"""
+    if not ctx.driver_ok:
+        return
+    cases = [gen_edge_case(ctx) for _ in range(n)]
+    Rs = cc.pool().map(_real_worker, cases, chunksize=4)
+    Ms = driver.call_batch([_req(c) for c in cases])
+    for c, R, M in zip(cases, Rs, Ms):
+        ctx.hist["edge:" + c["edge"]] = ctx.hist.get("edge:" + c["edge"], 0) + 1
+        if "events" not in R:
+            ctx.add_drift(c, R, M, "edge stratum: build failed")
+            continue
+        for i, ev in enumerate(c["events"]):
+            m = canon_M(M[i])
+            if json.dumps(R["events"][i], sort_keys=True) != json.dumps(m, sort_keys=True):
+                ctx.add_drift(_sub(c, i), R["events"][i], m, f"edge stratum ({c['edge']}): event {i} {ev[0]}")
+                break
+
+
 def run(ctx):
     setup(ctx)
     done = 0
@@ -809,6 +883,8 @@ def run(ctx):
         done += len(cases)
         if len(ctx.violations) > 10:
             break
+    if not ctx.violations:
+        run_edge(ctx, ctx.n(60, 1000))
     if not ctx.proof_ok or ctx.drift:
         ctx.notes.append("proof/correspondence broken: the run above is the failing-input search")
 
